@@ -328,7 +328,7 @@ func (g *gen) simple0() string {
 	case 20:
 		return g.pick("defer p.N()\n", "defer i.N()\n", "defer esc(&x)\n", "defer func() { y = x }()\n", "defer sink(x)\n", "defer close(c)\n")
 	case 21:
-		return g.pick("println(x, str)\n", "print(fl)\n", "x = len(m) + len(str) + len(arr) + cap(c) + len(c)\n", "x = max(x, y, 3)\n")
+		return g.pick("println(x, str)\n", "print(fl)\n", "if cond() {\nselect {}\n}\n", "x = len(m) + len(str) + len(arr) + cap(c) + len(c)\n", "x = max(x, y, 3)\n")
 	case 22:
 		return fmt.Sprintf("{\n\tloc := %s\n\tesc(&loc)\n\tx = loc\n}\n", g.intE(1))
 	case 23:
